@@ -58,7 +58,8 @@ def default_header():
         "com": [],                      # lengths (1..65536)
         "quant": [(0, 0, 1)],           # (precision, index, is_last); 1..4 tables
         "comp_type": 0, "comp_ids": [], "q_idx": [0],
-        "huff": [(0, 0, 0, [0] * 17, [])] * 4,   # (is_ac, id, is_last, counts, values 0..256)
+        # (is_ac, id, is_last, counts, values 0..256); at least one value (the end marker), none of length 0
+        "huff": [(0, 0, 0, [0, 1, 1] + [0] * 14, [0, 256])] * 4,
         "scans": [],                    # dict(ss, se, al, ah, comps=[(c, ac, dc)], last=0, reset=[], ezr=[])
         "restart_interval": 0,
         "intermarker": [],              # lengths 0..65535
